@@ -293,6 +293,12 @@ func c12MasterOf(kind string) *c12Master {
 				e.Index = i - 1
 			case 9:
 				e.Index = (i * 13) % 997
+			case 5:
+				if i > 0 {
+					e.Index = 0 // the zero value of the field at a non-zero position
+				}
+			case 1:
+				e.Index = i + 1<<32 // differs from the position only in the high byte of the 40-bit field
 			}
 		case "archival":
 			e.Archival, e.Index = true, 0
@@ -1116,7 +1122,7 @@ func c12LeafWithExt(e *vfref.Entry, ext []byte) []byte {
 	return append(out, ext...)
 }
 
-var c12SCTDefects = []string{"genuine", "log-id", "log-id-random", "timestamp", "timestamp-bit", "timestamp-bit", "timestamp-resigned", "index-other", "index-other-resigned", "index-out-of-range",
+var c12SCTDefects = []string{"genuine", "log-id", "log-id-random", "timestamp", "timestamp-bit", "timestamp-bit", "timestamp-resigned", "index-other", "index-other-resigned", "index-out-of-range", "index-plus-2^32",
 	"sig-other-leaf", "sig-foreign-key", "sig-bitflip", "sig-own-extensions", "extra-extension", "extra-extension-after", "no-leaf-index", "leaf-index-len", "trailing", "sig-trailing",
 	"version", "hash-alg", "sig-alg", "truncated", "genuine", "genuine"}
 
@@ -1158,6 +1164,9 @@ func c12GenSCT(t *rapid.T, w *c12World, p int64) *c12SCT {
 		s.oneField = false
 	case "index-out-of-range":
 		s.idx = n + rapid.SampledFrom([]int64{0, 1, 256, 1<<40 - 1 - n}).Draw(t, "past")
+		s.ext = c12LeafIndexExt(s.idx)
+	case "index-plus-2^32": // the position plus a multiple of 2^32: equal in the low 32 bits of the 40-bit field
+		s.idx = p + int64(rapid.IntRange(1, 255).Draw(t, "idxHigh"))<<32
 		s.ext = c12LeafIndexExt(s.idx)
 	case "sig-other-leaf":
 		signed = truth[other].MerkleTreeLeaf()
